@@ -177,6 +177,7 @@ def _is_generator(node):
 INTRINSICS = {
     'logging.info': _quiet, 'logging.error': _quiet, 'logging.warning': _quiet, 'logging.debug': _quiet, 'logging.basicConfig': _quiet,
     're.sub': _re.sub, 're.match': _re.match, 're.search': _re.search, 're.split': _re.split, 're.fullmatch': _re.fullmatch,
+    're.compile': _re.compile, 're.findall': _re.findall, 're.escape': _re.escape,
     'os.path.join': os.path.join, 'os.path.basename': os.path.basename,
     'collections.OrderedDict': dict, 'OrderedDict': dict,
     'datetime.datetime': _datetime.datetime, 'datetime.timedelta': _datetime.timedelta, 'datetime.date': _datetime.date,
@@ -985,8 +986,10 @@ class PyEval:
         import enum as _enum
         if isinstance(o, _enum.Enum) and name in ('name', 'value'):
             return getattr(o, name)
-        if isinstance(o, _re.Match) and name in ('group', 'groups', 'start', 'end'):
+        if isinstance(o, _re.Match) and name in ('group', 'groups', 'start', 'end', 'span', 'groupdict', 'lastindex', 'string'):
             return getattr(o, name)
+        if isinstance(o, _re.Pattern) and name in ('sub', 'subn', 'match', 'search', 'fullmatch', 'split', 'findall', 'pattern', 'flags'):
+            return getattr(o, name)          # a compiled pattern: its methods are those of the re module
         if name in getattr(o, 'pyeval_native', ()):
             return getattr(o, name)          # an object the checker hands to the program (a file being written, ...)
         raise AnalysisError('abstract evaluation: attribute %s of %r at %s' % (name, o, loc))
